@@ -22,6 +22,9 @@ FORMS = {
 HOSTS = {
     'input': 'input', 'cb': 'input type="checkbox"', 'radio': 'input type="radio"', 'text': 'input type="text"', 'dyn': 'input type={{v4}}',
     'cbx': 'input type={{"checkbox"}}', 'rdx': "input type={{'radio'}}", 'spt': 'input {{...s1}} type="checkbox"', 'sp': 'input {{...s1}}',
+    'spl-kv': 'input {{...{{type: v4, name: "n"}}}}', 'spl-sh': 'input {{...{{type, name}}}}', 'spl-str': 'input {{...{{"type": v4}}}}', 'spl-comp': 'input {{...{{["type"]: v4}}}}',
+    'spl-nested': 'input {{...{{...s1}}}}', 'spl-get': 'input {{...{{get type() {{ return v4 }}}}}}', 'spl-static': 'input {{...{{type: "checkbox"}}}}', 'spl-other': 'input {{...{{id: "x"}}}}',
+    'spl-two': 'input {{...{{id: "x"}}}} {{...{{type}}}}', 'spc': 'input {{...f1()}}',
     'typeafter': 'input', 'select': 'select', 'textarea': 'textarea', 'div': 'div', 'Foo': 'Foo', 'C1': 'C1', 'mem': 'v1.Foo',
 }
 OTHERS = {'': '', 'id': 'id="a"', 'cls': 'class={{v3}}', 'sp': '{{...s1}}', 'upd': 'onUpdate:modelValue={{f1}}'}
@@ -44,7 +47,7 @@ def make_skeleton(spec):
         attrs = (other + ' ' + form) if pos == 'last' else (form + ' ' + other)
         if spec['host'] == 'typeafter':
             attrs = attrs + ' type="radio"'
-        src = PRELUDE + 'const _0 = <%s %s/>;\n' % (host, attrs)
+        src = PRELUDE + ('const type = v4, name = "n";\n' if spec['host'].startswith('spl') else '') + 'const _0 = <%s %s/>;\n' % (host, attrs)
         sid = 'c05#%s|%s|%s|%s|%s' % (spec['host'], spec['form'], spec['target'], spec.get('other', ''), pos)
     opts = {'merge_props': 'sym', 'optimize': 'sym'}
     return Skeleton(sid.replace('{', '(').replace('}', ')'), src, [], opts, meta={'family': 'c05/' + ('models' if 'models' in spec else spec['host'])})
